@@ -147,7 +147,7 @@ public:
   void set_running(bool r) { b_simulation_running = r; }
 
 private:
-  int rep_fd(int from, int to);
+  int rep_fd(int from, int to, char const *kind = "f");
   int run_schedule_(int n, std::function<int(int)> const &work, std::string *sched_out);
   std::mutex smp_mutex_;
   std::mutex io_mutex_;
